@@ -107,16 +107,21 @@ impl Kinematics for OPWKinematics {
                     let s_n;
                     if let Some(Singularity::A) = singularity {
                         let mut now = ik[s_idx];
-                        if are_angles_close(now[J5], 0.) {
+                        // Work with sign-corrected angles (offsets cancel out in differences)
+                        let p = &self.parameters;
+                        let sign4 = p.sign_corrections[J4] as f64;
+                        let sign6 = p.sign_corrections[J6] as f64;
+                        let q5 = now[J5] * p.sign_corrections[J5] as f64 - p.offsets[J5];
+                        if are_angles_close(q5, 0.) {
                             // J5 = 0 singlularity, J4 and J6 rotate same direction
-                            s = previous[J4] + previous[J6];
-                            s_n = now[J4] + now[J6];
+                            s = previous[J4] * sign4 + previous[J6] * sign6;
+                            s_n = now[J4] * sign4 + now[J6] * sign6;
                         } else {
                             // J5 = -180 or 180 singularity, even if the robot would need
                             // specific design to rotate J5 to this angle without self-colliding.
                             // J4 and J6 rotate in opposite directions
-                            s = previous[J4] - previous[J6];
-                            s_n = now[J4] - now[J6];
+                            s = previous[J4] * sign4 - previous[J6] * sign6;
+                            s_n = now[J4] * sign4 - now[J6] * sign6;
 
                             // Fix J5 sign to match the previous
                             normalize_near(&mut now[J5], previous[J5]);
@@ -131,8 +136,8 @@ impl Kinematics for OPWKinematics {
                         }
                         let j_d = angle / 2.0;
 
-                        now[J4] = previous[J4] + j_d;
-                        now[J6] = previous[J6] + j_d;
+                        now[J4] = previous[J4] + j_d * sign4;
+                        now[J6] = previous[J6] + j_d * sign6;
 
                         // Check last time if the pose is ok
                         let check_pose = self.forward(&now);
@@ -303,7 +308,10 @@ impl Kinematics for OPWKinematics {
     }
 
     fn kinematic_singularity(&self, joints: &Joints) -> Option<Singularity> {
-        if is_close_to_multiple_of_pi(joints[J5], SINGULARITY_ANGLE_THR) {
+        // The singularity is where the corrected J5 (sign and offset applied) is a multiple of PI
+        let p = &self.parameters;
+        let q5 = joints[J5] * p.sign_corrections[J5] as f64 - p.offsets[J5];
+        if is_close_to_multiple_of_pi(q5, SINGULARITY_ANGLE_THR) {
             Some(Singularity::A)
         } else {
             None
